@@ -1,8 +1,12 @@
 #!/bin/bash
-# copy finished seed deliverables from the sub-agents' scratch worktrees into /verif/seeded/
-for d in /tmp/wt/c*/SEED/C*-* /tmp/wt2/c*/SEED/C*-* /tmp/wt3/c*/SEED/C*-*; do
+# copy finished seed deliverables from the sub-agents' scratch worktrees (<root>/cXX/SEED/<id>/) into /verif/seeded/
+# usage: tools/ingest_seeds.sh [root ...]   (default /tmp/wt4)
+ROOTS=${@:-/tmp/wt4}
+for r in $ROOTS; do
+for d in $r/c*/SEED/C*-* $r/c*_scratch/SEED/C*-*; do
   n=$(basename $d)
   if [ -f $d/patch.diff ] && [ -f $d/demo.py ] && [ -f $d/meta.json ] && [ ! -d /verif/seeded/$n ]; then
     mkdir -p /verif/seeded/$n && cp $d/patch.diff $d/demo.py $d/meta.json /verif/seeded/$n/ && echo "ingested $n"
   fi
+done
 done
